@@ -217,7 +217,7 @@ func checkC11(p *Prog, r *Report) {
 			r.Check("O4", ob.Key, ob.OK, ob.Pos, ob.Detail)
 		}
 	}
-	r.Floor("O4", "Updater implementations", n4, 87)
+	r.Floor("O4", "Updater implementations", n4, 80)
 	engineFailureRule(p, r, "O6")
 	r.Assumes("DataCopy is a shallow copy by design: lists below the first level share their backing arrays with the store, which is safe only because nothing writes them in place (O3)",
 		"reflection is summarised by the pattern ValueOf(param).Elem()…Set*")
